@@ -419,9 +419,20 @@ func (c13) Run(c *fw.Case) {
 	if c.Idx%3 == 2 {
 		// in the last third every goroutine starts with a call that FAILS (each for another reason): what a failing call
 		// releases, unlocks or gives back on its way out must not be released twice or left for the calls that follow
-		first := make([]c13call, 0, k+len(calls))
+		first := make([]c13call, 0, 2*k+len(calls))
 		for g := 0; g < k; g++ {
 			first = append(first, c13call{"W4-failing-call", c13Failing(g)})
+		}
+		if k >= 8 {
+			// ... followed, in every goroutine at once, by ONE DEEP validation (a tree nested 2500 levels, ~10000 nested
+			// evaluations per call): whatever a call counts, measures or bounds is its own, not the sum over the calls in flight
+			var deep any = map[string]any{"data": 1.0}
+			for i := 0; i < 2500; i++ {
+				deep = map[string]any{"children": []any{deep}}
+			}
+			for g := 0; g < k; g++ {
+				first = append(first, c13call{"W1-deep", verdict(rs, deep)})
+			}
 		}
 		calls = append(first, calls...)
 	}
